@@ -25,7 +25,7 @@ validation reports no error exactly when the frame satisfies the declaration. -/
 theorem validate_accepts_iff_sat_partial (T : ScopeTable) (S : Schema) (D : Frame)
     (hwf : D.WF = true) (hK : NoK_C01 S D) :
     accepts T .schemaAndData S D = true ↔ Spec.Sat S D := by
-  unfold accepts frameErrors Spec.Sat
+  unfold accepts frameErrors coreCheckErrors Spec.Sat
   simp only [List.isEmpty_iff, List.append_eq_nil_iff, and_assoc]
   rw [strictOrderedErrors_nil_iff S D (wf_names hwf), presenceErrors_nil_iff,
     jointUniqueErrors_nil_iff]
@@ -41,8 +41,9 @@ theorem validate_accepts_iff_sat_partial (T : ScopeTable) (S : Schema) (D : Fram
       · exact ((columnErrors_nil_iff T spec D (wf_cols hwf) (hK.1 spec hs)).mpr (h spec hs)).2
       · subst hl
         exact ((columnErrors_nil_iff T spec D (wf_cols hwf) (hK.1 spec hs)).mpr (h spec hs)).1
-  have hix : (match S.index with | some ix => indexErrors T .schemaAndData ix D | none => []) = [] ↔
+  have hix : indexPartErrors T .schemaAndData S D = [] ↔
       ∀ ix, S.index = some ix → Spec.indexSat ix D := by
+    unfold indexPartErrors
     cases hi : S.index with
     | none => simp
     | some ix =>
